@@ -87,3 +87,20 @@ func (sm *SyncMap[K, V]) Set(key K, value V) {
 
 	sm.ma[key] = value
 }
+
+// Update calls fn with the current value of key (ok is false when there is none) while holding
+// the map's lock, and stores the value fn returns; when fn returns keep == false the key is
+// removed (or stays absent). Use it where a decision depends on the value being the one read
+// earlier: Get followed by Set or Delete lets another goroutine slip in between.
+func (sm *SyncMap[K, V]) Update(key K, fn func(val V, ok bool) (newVal V, keep bool)) {
+	sm.mu.Lock()
+	defer sm.mu.Unlock()
+
+	val, ok := sm.ma[key]
+	newVal, keep := fn(val, ok)
+	if keep {
+		sm.ma[key] = newVal
+	} else if ok {
+		delete(sm.ma, key)
+	}
+}
